@@ -383,13 +383,18 @@ class FuncVal:
         return hash(self.qualname)
 
 
+_DEFINER = [None]      # set by Ctx.start_path: names compound stride products (keeps index arithmetic near-linear)
+
+
 def flatF(idx, shape):
     """Fortran-order flat index of idx in an array of the given shape."""
     r = 0
+    raw = 1
     stride = 1
     for i, n in zip(idx, shape):
         r = r + i * stride
-        stride = stride * n
+        raw = raw * n if not (isinstance(raw, int) and raw == 1) else n
+        stride = _DEFINER[0](raw, "stride") if (_DEFINER[0] is not None and is_z3(raw)) else raw
     return r
 
 
